@@ -29,7 +29,21 @@ class Prop(BaseProp):
             for k, cfg in enumerate(ddgen.CONFIGS):
                 cases = [{"id": "d%d_%d" % (k, i), "text": ddgen.gen_case(rng, cfg, big), "meta": {"cfg": k}} for i in range(8 if not big else 40)]
                 out.append({"name": "dd", "cases": cases, "env": ddgen.env_of(cfg)})
-        return out + sessgen.streams(rng, tier)
+        out += sessgen.streams(rng, tier)
+        # files completing concurrently while xorb uploads are still in flight (every put held back 40 ms, one upload at a
+        # time): the session's aggregate is cut, swapped and merged by several completions in turn
+        cases = []
+        for i in range(4 if not big else 16):
+            nid = 7000 * (i + 1)
+            ops = ["S - slow"]
+            for j in range(rng.choice([3, 4, 6])):
+                nid += 1
+                ops.append("fp s%d %d:%d %s" % (j, nid, rng.choice([30000, 40000, 50000, 20000]), rng.choice(["all", "8192"])))
+            ops += ["E", "D"]
+            cases.append({"id": "slow%d" % i, "text": " | ".join(ops), "meta": {"cfg": "slow"}})
+        out.append({"name": "sess", "cases": cases, "model": False, "timeout": 1200,
+                    "env": {"XET_VERIF_SKIP_SHARD_INTEGRITY_CHECK": "1", "HF_XET_TARGET_CHUNK_SIZE": "1024", "HF_XET_MAX_XORB_BYTES": "65536", "HF_XET_MAX_CONCURRENT_UPLOADS": "1"}})
+        return out
 
     def nontrivial(self, stream, case, io):
         if stream == "dd":
